@@ -41,8 +41,8 @@ ASSUMPTIONS = [
   'ModifyColumn{isFormula:False} and the matching _grist_Tables_column update',
   'rejected bundles (e.g. a value the column cannot accept) are labelled and not judged',
 ]
-BUDGET = {'quick': dict(examples=1600, shards=16, max_seconds=55),
-          'thorough': dict(examples=24000, shards=16, max_seconds=570)}
+BUDGET = {'quick': dict(examples=1600, shards=16, max_seconds=45),
+          'thorough': dict(examples=24000, shards=16, max_seconds=540)}
 SHRINK_BUDGET = {'quick': 150, 'thorough': 500}
 
 GROUPBYS = [['K'], ['K', 'L'], [], ['T'], ['K', 'T']]
